@@ -101,6 +101,9 @@ class MinMaxAggregator:
             if arg.ast_type not in {ASTType.Variable, ASTType.SymbolicTerm}:
                 return  # nocoverage
 
+        if not all(var in symbol.arguments for var in rest_vars):
+            return  # the head projects a group variable away, it does not hold one result per group
+
         mapping = [
             (rest_vars + [max_var]).index(arg) if arg in rest_vars + [max_var] else None for arg in symbol.arguments
         ]
@@ -508,7 +511,8 @@ class MinMaxAggregator:
         new_terms = [Function(LOC, chain_name, [PREV, NEXT], False)] + list(terms)
 
         newargs = translation.translate_parameters(oldmax.atom.symbol.arguments)
-        newargs = [next_ if i == idx else x for i, x in enumerate(newargs)]
+        new_idx = list(translation.mapping)[idx]  # position of the result in the translated arguments
+        newargs = [next_ if i == new_idx else x for i, x in enumerate(newargs)]
         for arg in newargs:
             assert isinstance(arg, AST)
         chainpred = Literal(
